@@ -829,6 +829,17 @@ func runCase(spec *caseSpec) {
 			return
 		}
 		served[n.ID] = ps
+		// a reloaded layout (oci.New on an existing directory, the read-only store) indexes every
+		// node by its plain descriptor: nothing of the pushing descriptor or of a referencing entry
+		if spec.Src == "ocireopen" || spec.Src == "ocifs" {
+			for _, p := range ps {
+				if p.ArtifactType != "" || p.Annotations != nil {
+					fail("reload-not-plain", fmt.Sprintf("source %s: predecessor %d of %d is served with artifactType %q / annotations %v",
+						spec.Src, rec.id(p), n.ID, p.ArtifactType, p.Annotations))
+					break
+				}
+			}
+		}
 		// the source's predecessor relation is the generator's inverse edge list
 		var got []int
 		for _, p := range ps {
